@@ -217,7 +217,7 @@ func (c17) Gen(seed int64, tier string, emit func(any)) {
 				emit(c17Case{f, itoa(v), "", excl, c17Items(f, n, n+v+10)})
 				f = fmts[(n+v+11)%3]
 				emit(c17Case{f, "", itoa(v), excl, c17Items(f, n, n+v+11)})
-				if thorough {
+				if thorough && n%2 == 0 {
 					for _, g := range fmts {
 						emit(c17Case{g, itoa(v), "", excl, c17Items(g, n, 0)})
 						emit(c17Case{g, "", itoa(v), excl, c17Items(g, n, 0)})
@@ -233,7 +233,7 @@ func (c17) Gen(seed int64, tier string, emit func(any)) {
 	//    [-5,35]^2 grid on many lengths
 	var lens []int
 	if thorough {
-		lens = []int{0, 1, 2, 3, 7, 12, 30}
+		lens = []int{0, 1, 3, 7, 30}
 	} else {
 		lens = []int{0, 1, 2, 3, 4, 7, 12, 30}
 	}
